@@ -95,6 +95,11 @@ def networks(draw, tier="quick"):
     if family != "dag-negative" and draw(st.integers(0, 2)) == 0:  # negative costs without negative cycles: shift by node potentials
         pot = draw(st.lists(st.integers(0, 4), min_size=n, max_size=n))
         arcs = [[u, v, c, w + pot[u] - pot[v]] for u, v, c, w in arcs]
+    offset = draw(st.sampled_from([0, 0, 0, 0, 0, 10**6, 10**9]))
+    if offset:  # large cost magnitudes (exact in floats: totals stay far below 2**53); alternatives still differ by a few units,
+        # so a tolerance that scales with the cost magnitude (big-M) swallows the last improving pivot
+        only_nonneg = draw(st.booleans())
+        arcs = [[u, v, c, w + offset if (w >= 0 or not only_nonneg) else w] for u, v, c, w in arcs]
     if draw(st.booleans()):  # half of the cases without parallel arcs (network_simplex's dict can then be checked fully)
         seen, ded = set(), []
         for a in arcs:
@@ -106,7 +111,7 @@ def networks(draw, tier="quick"):
     arcs = [[perm[u], perm[v], c, w] for u, v, c, w in arcs]
     arcs = [list(a) for a in draw(st.permutations(arcs))]
     return {
-        "family": family, "n": n, "arcs": arcs, "s": perm[s], "t": perm[t], "scheme": draw(st.integers(0, 5)), "demand_off": draw(st.integers(-3, 2)), "supply_seed": draw(st.lists(st.integers(-3, 3), min_size=n, max_size=n)),
+        "family": family, "huge": bool(offset), "n": n, "arcs": arcs, "s": perm[s], "t": perm[t], "scheme": draw(st.integers(0, 5)), "demand_off": draw(st.integers(-3, 2)), "supply_seed": draw(st.lists(st.integers(-3, 3), min_size=n, max_size=n)),
         "edit": draw(st.one_of(st.none(), st.tuples(st.integers(0, n - 1), st.integers(0, n - 1), st.integers(1, 3), st.integers(0, 4)).map(list))),
         "supply_mode": "from-flow" if family == "tight" else draw(st.sampled_from(["from-flow", "from-flow", "random"])),
         "flow_seed": draw(st.lists(st.sampled_from([4, 4, 4, 0, 1, 2]) if family == "tight" else st.integers(0, 4), min_size=len(arcs), max_size=len(arcs))),
@@ -219,7 +224,7 @@ def run_mcf(desc, ctx, also_ns=False):
     neg = any(w < 0 for *_, w in arcs)
     fo = forward_only_cost(n, arcs, s, t, demand) if ref is not None else None
     needs_cancel = ref is not None and (fo is None or fo > ref[0])
-    ctx.label(desc["family"], par and "parallel", anti and "anti-parallel", neg and "negative-cost", needs_cancel and "needs-cancellation", "feasible" if ref is not None else "infeasible", demand == 0 and "demand-0", demand == mf and demand > 0 and "saturating")
+    ctx.label(desc["family"], desc.get("huge") and "huge-costs", par and "parallel", anti and "anti-parallel", neg and "negative-cost", needs_cancel and "needs-cancellation", "feasible" if ref is not None else "infeasible", demand == 0 and "demand-0", demand == mf and demand > 0 and "saturating")
     ctx.size("n", n)
     ctx.size("arcs", len(arcs))
     ctx.nontrivial((ref is not None and demand >= 2 and (needs_cancel or par or anti or neg)) or (ref is None and mf > 0))
@@ -327,7 +332,7 @@ def run_ns(desc, ctx):
     anti = any((v, u) in cap for u, v in cap)
     neg = any(w < 0 for *_, w in arcs)
     srcs = sum(1 for b in supply if b > 0)
-    ctx.label(desc["family"], par and "parallel", anti and "anti-parallel", neg and "negative-cost", "feasible" if ref is not None else "infeasible", srcs >= 2 and "multi-source", all(b == 0 for b in supply) and "zero-supply")
+    ctx.label(desc["family"], desc.get("huge") and "huge-costs", par and "parallel", anti and "anti-parallel", neg and "negative-cost", "feasible" if ref is not None else "infeasible", srcs >= 2 and "multi-source", all(b == 0 for b in supply) and "zero-supply")
     ctx.nontrivial((ref is not None and sum(b for b in supply if b > 0) >= 2) or (ref is None and any(c > 0 for *_, c, _ in arcs)))
     run_ns_on(n, arcs, supply, ctx, ref)
 
